@@ -33,14 +33,16 @@ class _DmPolicy(FlowPolicy):
     def on_await(self, interp, node, cfg):
         cfg = super().on_await(interp, node, cfg)
         name = call_name(node.value) if isinstance(node.value, ast.Call) else None
-        if name == "dm.start":
+        if name == f"{self.var}.start":
             return cfg.set("$dm_running", Const(True))
-        if name in ("dm.stop", "dm.wait_until"):
+        if name in (f"{self.var}.stop", f"{self.var}.wait_until"):
             return cfg.set("$dm_running", Const(False))
         return cfg
 
+    var = "dm"  # the local of wait_until that holds the temporary manager (read from the code by the rule)
+
     def attr(self, interp, base, attr, cfg):
-        if attr == "status" and base == cfg.env.get("dm"):
+        if attr == "status" and base == cfg.env.get(self.var):
             running = cfg.env.get("$dm_running")
             if running is not None:
                 return Sym(("clsattr", "DecoratorManagerStatus", "RUNNING" if running.v else "STOPPED"))
@@ -98,13 +100,20 @@ def run(ctx):
     # ---------------------------------------------------------------- new implementation
     ctx.rule("R15.2", "new wait_until: the temporary decorator manager started by dm.start() is stopped on every exit", floor=3)
     fn2 = program.func(NEW)
-    pairs2 = {"dm.start": ("decorator manager", {"dm.stop", "dm.wait_until"})}
-    pol2 = _DmPolicy(program, events=["dm.start", "dm.stop", "dm.wait_until"], locals_={"dm", "cls", "kwargs", "$dm_running"})
-    pol2.acquire_labels = {"dm.start", "dm.wait_until"}  # dm.wait_until() counts as release only when it returns (summary below)
+    # the local that holds the temporary manager: whatever WaitUntilDecoratorManager(...) is bound to
+    dmv = [n.targets[0].id for n in body_walk(fn2) if isinstance(n, ast.Assign) and len(n.targets) == 1 and isinstance(n.targets[0], ast.Name) and isinstance(n.value, ast.Call)
+           and call_name(n.value) == "WaitUntilDecoratorManager"]
+    if len(dmv) != 1:
+        raise AnalysisError(f"{NEW}: the temporary WaitUntilDecoratorManager is not bound to one local ({dmv})")
+    dm = dmv[0]
+    pairs2 = {f"{dm}.start": ("decorator manager", {f"{dm}.stop", f"{dm}.wait_until"})}
+    pol2 = _DmPolicy(program, events=[f"{dm}.start", f"{dm}.stop", f"{dm}.wait_until"], locals_={dm, "cls", "kwargs", "$dm_running"})
+    pol2.var = dm
+    pol2.acquire_labels = {f"{dm}.start", f"{dm}.wait_until"}  # dm.wait_until() counts as release only when it returns (summary below)
     out2 = run_flow(program, NEW, pol2)
     n2, leaks2 = pairing(out2, pairs2)
-    if not any(call_name(n) == "dm.start" for n in body_walk(fn2) if isinstance(n, ast.Call)):
-        raise AnalysisError(f"{NEW}: dm.start() call not found")
+    if not any(call_name(n) == f"{dm}.start" for n in body_walk(fn2) if isinstance(n, ast.Call)):
+        raise AnalysisError(f"{NEW}: {dm}.start() call not found")
     if leaks2:
         k, line, kind, desc = sorted(leaks2, key=lambda x: x[3])[0]
         ctx.fail("R15.2", NEW, "decorator manager stopped on every exit",
@@ -438,8 +447,13 @@ class _StartPolicy(FlowPolicy):
         self.stop_fn = stop_fn
 
     def call(self, interp, node, fname, fval, args, kwargs, cfg, out):
-        if fname == "decorator.start":
-            dec = cfg.env.get("decorator")
+        # (the decorator being started / stopped is the receiver of the call, whatever the loop variable is called)
+        dec = None
+        if fname and fname.count(".") == 1 and fname.split(".")[1] in ("start", "stop") and fname.split(".")[0] not in ("self", "cls"):
+            dec = fval.recv if isinstance(fval, FuncV) and fval.recv is not None else cfg.env.get(fname.split(".")[0])
+            if not (isinstance(dec, ObjV) and dec.cls == "Decorator"):
+                dec = None
+        if dec is not None and fname.endswith(".start"):
             c = cfg.emit(("call", "start", dec))
             res = [(c, NONE)]
             if not any(e[0] == "reentrant-stop" for e in c.trace):
@@ -449,8 +463,8 @@ class _StartPolicy(FlowPolicy):
                 r = interp.inline(node, FuncV(self.stop_fn, recv=cfg.env.get("self"), name="DecoratorManager.stop"), [], {}, c2, sub)
                 res += [(cc, NONE) for cc, _ in r]
             return res
-        if fname == "decorator.stop":
-            return [(cfg.emit(("call", "stop", cfg.env.get("decorator"))), NONE)]
+        if dec is not None and fname.endswith(".stop"):
+            return [(cfg.emit(("call", "stop", dec)), NONE)]
         return super().call(interp, node, fname, fval, args, kwargs, cfg, out)
 
 
